@@ -179,7 +179,7 @@ func (aw *AsyncWorker) dealWithGroupedContexts(resID string, phaseCtxs []phaseTw
 	if !ok {
 		for i := range phaseCtxs {
 			aw.rePutBackToQueue.Add(1)
-			aw.commitQueue <- phaseCtxs[i]
+			aw.requeue(phaseCtxs[i])
 		}
 		return
 	}
@@ -188,7 +188,7 @@ func (aw *AsyncWorker) dealWithGroupedContexts(resID string, phaseCtxs []phaseTw
 	conn, err := res.db.Conn(context.Background())
 	if err != nil {
 		for i := range phaseCtxs {
-			aw.commitQueue <- phaseCtxs[i]
+			aw.requeue(phaseCtxs[i])
 		}
 	}
 
@@ -198,7 +198,7 @@ func (aw *AsyncWorker) dealWithGroupedContexts(resID string, phaseCtxs []phaseTw
 	if err != nil {
 		for i := range phaseCtxs {
 			aw.rePutBackToQueue.Add(1)
-			aw.commitQueue <- phaseCtxs[i]
+			aw.requeue(phaseCtxs[i])
 		}
 		return
 	}
@@ -207,7 +207,18 @@ func (aw *AsyncWorker) dealWithGroupedContexts(resID string, phaseCtxs []phaseTw
 		phaseCtx := phaseCtxs[i]
 		if err := undoMgr.BatchDeleteUndoLog([]string{phaseCtx.Xid}, []int64{phaseCtx.BranchID}, conn); err != nil {
 			aw.rePutBackToQueue.Add(1)
-			aw.commitQueue <- phaseCtx
+			aw.requeue(phaseCtx)
 		}
+	}
+}
+
+// requeue puts a request back into the commit queue without ever blocking the calling worker.
+// run() can itself be blocked handing the next batch to the workers; a worker blocking on a full
+// queue would then stall the whole pipeline for good.
+func (aw *AsyncWorker) requeue(phaseCtx phaseTwoContext) {
+	select {
+	case aw.commitQueue <- phaseCtx:
+	default:
+		go func() { aw.commitQueue <- phaseCtx }()
 	}
 }
